@@ -505,6 +505,9 @@ func (e *c19Env) run(in c19In) (obs c19Obs) {
 	settle := 2*pull + 200*time.Millisecond
 	histEnd := time.Now()
 	deadline := histEnd.Add(45 * time.Second)
+	if vfReplayOnly() { // shrinking re-runs single cases: still two orders of magnitude above the pull interval
+		deadline = histEnd.Add(20 * time.Second)
+	}
 	for i := range in.Subs {
 		if recs[i] == nil {
 			continue
